@@ -118,8 +118,15 @@ def check_seed_order(R, prog, res0, consumers):
         res.parse_args_targets = registered_actions(prog, fi)
         cfg = CFG(fi.node)
         stmts = stmts_in(fi.node)
+        # the seed option: args.seed, or a local bound once to it (`seed = args.seed`, `seed = getattr(args, 'seed', None)`)
+        seed_exprs = {"args.seed"}
+        for s_ in stmts:
+            if isinstance(s_, ast.Assign) and len(s_.targets) == 1 and isinstance(s_.targets[0], ast.Name) and \
+                    src(s_.value) in ("args.seed", "getattr(args, 'seed', None)") and \
+                    sum(1 for x in stmts if isinstance(x, ast.Assign) and any(src(t) == s_.targets[0].id for t in x.targets)) == 1:
+                seed_exprs.add(s_.targets[0].id)
         seeds = [s for s in stmts if isinstance(s, ast.Expr) and isinstance(s.value, ast.Call) and call_name(s.value) == "random.seed"
-                 and s.value.args and src(s.value.args[0]) == "args.seed"]
+                 and s.value.args and src(s.value.args[0]) in seed_exprs]
         # a seeding statement guarded by `if <seed given>:` counts from the guard on (without a seed there is nothing to reproduce)
         seeds = [next((g for g in stmts if isinstance(g, ast.If) and sd in g.body and "seed" in src(g.test)), sd) for sd in seeds]
         # does the seed option seed at parse time?
